@@ -443,7 +443,9 @@ func (x *g) genNestedViewTypes() {
 			v := &spec.View{Name: name}
 			for _, a := range attrs {
 				va := spec.ViewAttr{Name: a}
-				if a != "note" {
+				if a == "next" {
+					va.View = x.r.Pick("", "tiny", "default") // the views Grand itself defines
+				} else if a != "note" {
 					va.View = pv[x.r.Intn(len(pv))]
 				}
 				v.Attrs = append(v.Attrs, va)
@@ -662,7 +664,8 @@ func (x *g) genType(depth int, self string) *spec.Type {
 		}
 		return &spec.Type{Kind: spec.Ref, Ref: t.Name}
 	default:
-		if !x.o.Runtime && x.o.Profile != "views" && x.chance(1, 2) {
+		// (goa rejects a OneOf inside an inline object that is itself an attribute: only at the first level)
+		if !x.o.Runtime && x.o.Profile != "views" && depth <= 1 && x.chance(1, 2) {
 			x.s.AddFeature("union")
 			u := &spec.Type{Kind: spec.Union}
 			used := map[string]bool{}
